@@ -12,7 +12,7 @@ EXPLANATION = (
 )
 ASSUMPTIONS = [
     'MultiTypeMap.resolve (mode U): every registered method is a function with its own code object (adapt_function / rename_code give each adapted method a fresh one)',
-    'MultiTypeMap.resolve (mode U): mro returns non-empty groups and puts each method in exactly one group (mro.positions / mro._pull)',
+    'MultiTypeMap.resolve (mode U): mro returns non-empty groups and puts each method in exactly one group (guarantee side discharged per call of _pull: mro._pull/the_group_starts_with_that_candidate, mro._pull/no_member_of_the_group_can_be_yielded_by_the_recursive_call; composing them over the recursion is by induction on the list length, not mechanised)',
     "a fixed method set (registration is C05)", "wrappers generated per resolution are compared up to (rank, fall-through)"]
 TRUSTED = ["dict.__getitem__ calls __missing__ only on a miss", "contract of resolve at its call site in __missing__ (shape discharged in bounded mode)"]
 BOUNDS = {"resolve": "<=3 ranks, <=2 methods per rank"}
